@@ -64,6 +64,8 @@ struct M {
     local: Vec<Kind>,
     base: usize,
     replace: bool,
+    /// append the per-module elements as one multi-element stack instead of one by one
+    bulk: bool,
 }
 impl Module for M {
     fn at_sim_start(&mut self, _s: usize) {
@@ -89,8 +91,16 @@ impl Module for M {
     }
     fn stack(&self, s: ProcessingStack) -> ProcessingStack {
         let mut s = if self.replace { ProcessingStack::default() } else { s };
-        for (k, kind) in self.local.iter().enumerate() {
-            s.append(Pe { idx: self.base + k, kind: *kind, log: self.log.clone() });
+        if self.bulk {
+            let mut own = ProcessingStack::default();
+            for (k, kind) in self.local.iter().enumerate() {
+                own.append(Pe { idx: self.base + k, kind: *kind, log: self.log.clone() });
+            }
+            s.append(own);
+        } else {
+            for (k, kind) in self.local.iter().enumerate() {
+                s.append(Pe { idx: self.base + k, kind: *kind, log: self.log.clone() });
+            }
         }
         s
     }
@@ -113,13 +123,14 @@ struct Case {
     global: Vec<Kind>,
     local: Vec<Kind>,
     replace: bool,
+    bulk: bool,
 }
 fn case_json(c: &Case) -> Value {
-    json!({"global": c.global.iter().map(|k| format!("{k:?}")).collect::<Vec<_>>(), "local": c.local.iter().map(|k| format!("{k:?}")).collect::<Vec<_>>(), "module_replaces_global_stack": c.replace})
+    json!({"global": c.global.iter().map(|k| format!("{k:?}")).collect::<Vec<_>>(), "local": c.local.iter().map(|k| format!("{k:?}")).collect::<Vec<_>>(), "module_replaces_global_stack": c.replace, "local_part_appended_as_one_stack": c.bulk})
 }
 fn case_from(v: &Value) -> Case {
     let ks = |x: &Value| x.as_array().unwrap().iter().map(|s| *KINDS.iter().find(|k| format!("{k:?}") == s.as_str().unwrap()).unwrap()).collect();
-    Case { global: ks(&v["global"]), local: ks(&v["local"]), replace: v["module_replaces_global_stack"].as_bool().unwrap() }
+    Case { global: ks(&v["global"]), local: ks(&v["local"]), replace: v["module_replaces_global_stack"].as_bool().unwrap(), bulk: v["local_part_appended_as_one_stack"].as_bool().unwrap_or(false) }
 }
 
 fn run_case(c: &Case) -> Result<u64, String> {
@@ -136,7 +147,7 @@ fn run_case(c: &Case) -> Result<u64, String> {
             }
             s
         });
-        sim.node("m", M { log: log.clone(), local: c.local.clone(), base: if c.replace { 0 } else { c.global.len() }, replace: c.replace });
+        sim.node("m", M { log: log.clone(), local: c.local.clone(), base: if c.replace { 0 } else { c.global.len() }, replace: c.replace, bulk: c.bulk });
         sim.node("rx", Sink { log: log.clone() });
         sim.gate("m", "out").connect(sim.gate("rx", "in"), None);
         let r = Builder::seeded(1).quiet().build(sim.freeze()).run();
@@ -234,7 +245,7 @@ impl Property for C14 {
     }
     fn rule(&self, tier: Tier) -> String {
         format!(
-            "every global stack of 0..={} elements x every per-module stack of 0..={} elements (Module::stack appending to or replacing the global stack) over {{pass, modify id, consume kind 1, consume kind 2, send on event_start, send on event_end}}; \
+            "every global stack of 0..={} elements x every per-module stack of 0..={} elements (Module::stack appending to the global stack element by element or as one multi-element stack, or replacing it) over {{pass, modify id, consume kind 1, consume kind 2, send on event_start, send on event_end}}; \
              the module sees a start stage, message kind 1 (during which elements and the handler send to a sink), message kind 2, a timer wake-up and tear-down; \
              oracle: expected call log computed directly (event_start in stack order interleaved with incoming until consumed, handler iff not consumed, event_end in reverse order, brackets never interleave, emitted messages reach the sink in program order); \
              non-trivial = stack with at least 2 elements",
@@ -246,21 +257,24 @@ impl Property for C14 {
         vec!["processing elements that panic, and stacks changed at run time, are outside the alphabet".into()]
     }
     fn required_features(&self, _tier: Tier) -> Vec<&'static str> {
-        vec!["early_element_consumes", "element_sends", "global_and_local_parts", "module_replaces_stack", "empty_stack"]
+        vec!["early_element_consumes", "element_sends", "global_and_local_parts", "module_replaces_stack", "empty_stack", "multi_element_stack_appended_to_global"]
     }
     fn explore(&self, ctx: &mut Ctx) {
         let gs = stacks(ctx.tier.pick(3, 4));
         let ls = stacks(ctx.tier.pick(2, 3));
         for g in &gs {
             for l in &ls {
-                for replace in [false, true] {
+                for (replace, bulk) in [(false, false), (true, false), (false, true)] {
                     if replace && g.len() > 1 {
+                        continue;
+                    }
+                    if bulk && l.len() < 2 {
                         continue;
                     }
                     if !ctx.mine() {
                         continue;
                     }
-                    let c = Case { global: g.clone(), local: l.clone(), replace };
+                    let c = Case { global: g.clone(), local: l.clone(), replace, bulk };
                     ctx.begin(|| case_json(&c));
                     ctx.out.evaluations += 1;
                     ctx.out.traces += 1;
@@ -284,6 +298,9 @@ impl Property for C14 {
                     }
                     if all.is_empty() {
                         ctx.hit("empty_stack");
+                    }
+                    if bulk && !g.is_empty() {
+                        ctx.hit("multi_element_stack_appended_to_global");
                     }
                     match run_case(&c) {
                         Ok(o) => {
